@@ -1,6 +1,6 @@
 use super::time::TimeConfig;
 use crate::command::types::TimeGranularity;
-use chrono::{DateTime, Datelike, TimeZone, Timelike, Utc};
+use chrono::{DateTime, Datelike, LocalResult, NaiveDateTime, TimeZone, Timelike, Utc};
 use chrono_tz::Tz;
 
 /// Calendar-aware time bucketing implementation
@@ -54,19 +54,13 @@ impl CalendarTimeBucketer {
     }
 
     fn bucket_hour<T: TimeZone>(&self, dt: DateTime<T>) -> DateTime<T> {
-        dt.date_naive()
-            .and_hms_opt(dt.hour(), 0, 0)
-            .unwrap()
-            .and_local_timezone(dt.timezone())
-            .unwrap()
+        let local = dt.date_naive().and_hms_opt(dt.hour(), 0, 0).unwrap();
+        Self::resolve_start(&dt, local, true)
     }
 
     fn bucket_day<T: TimeZone>(&self, dt: DateTime<T>) -> DateTime<T> {
-        dt.date_naive()
-            .and_hms_opt(0, 0, 0)
-            .unwrap()
-            .and_local_timezone(dt.timezone())
-            .unwrap()
+        let local = dt.date_naive().and_hms_opt(0, 0, 0).unwrap();
+        Self::resolve_start(&dt, local, false)
     }
 
     fn bucket_week<T: TimeZone>(&self, dt: DateTime<T>) -> DateTime<T> {
@@ -75,33 +69,74 @@ impl CalendarTimeBucketer {
             % 7;
 
         let week_start = dt.date_naive() - chrono::Duration::days(days_since_week_start as i64);
-        week_start
-            .and_hms_opt(0, 0, 0)
-            .unwrap()
-            .and_local_timezone(dt.timezone())
-            .unwrap()
+        let local = week_start.and_hms_opt(0, 0, 0).unwrap();
+        Self::resolve_start(&dt, local, false)
     }
 
     fn bucket_month<T: TimeZone>(&self, dt: DateTime<T>) -> DateTime<T> {
-        dt.date_naive()
+        let local = dt
+            .date_naive()
             .with_day(1)
             .unwrap()
             .and_hms_opt(0, 0, 0)
-            .unwrap()
-            .and_local_timezone(dt.timezone())
-            .unwrap()
+            .unwrap();
+        Self::resolve_start(&dt, local, false)
     }
 
     fn bucket_year<T: TimeZone>(&self, dt: DateTime<T>) -> DateTime<T> {
-        dt.date_naive()
+        let local = dt
+            .date_naive()
             .with_month(1)
             .unwrap()
             .with_day(1)
             .unwrap()
             .and_hms_opt(0, 0, 0)
-            .unwrap()
-            .and_local_timezone(dt.timezone())
-            .unwrap()
+            .unwrap();
+        Self::resolve_start(&dt, local, false)
+    }
+
+    /// Turns the local start of `dt`'s bucket into an instant. Around a clock change the local
+    /// time may occur twice or not at all: an hour bucket takes the occurrence `dt` lies in,
+    /// a calendar bucket starts with the first occurrence, and a skipped local time stands
+    /// for the first instant after the gap.
+    fn resolve_start<T: TimeZone>(
+        dt: &DateTime<T>,
+        local: NaiveDateTime,
+        occurrence_of_dt: bool,
+    ) -> DateTime<T> {
+        match local.and_local_timezone(dt.timezone()) {
+            LocalResult::Single(start) => start,
+            LocalResult::Ambiguous(first, second) => {
+                if occurrence_of_dt && second <= *dt {
+                    second
+                } else {
+                    first
+                }
+            }
+            LocalResult::None => {
+                // UTC offsets lie between -12h and +14h: an instant 15h before `local` read as
+                // UTC shows an earlier wall-clock time than `local`, one 13h after it a later one
+                let tz = dt.timezone();
+                let reads_past = |secs: i64| {
+                    DateTime::from_timestamp(secs, 0)
+                        .map(|t| t.with_timezone(&tz).naive_local() >= local)
+                        .unwrap_or(true)
+                };
+                let as_utc = Utc.from_utc_datetime(&local).timestamp();
+                let (mut lo, mut hi) = (as_utc - 15 * 3600, as_utc + 13 * 3600);
+                while hi - lo > 1 {
+                    let mid = lo + (hi - lo) / 2;
+                    if reads_past(mid) {
+                        hi = mid;
+                    } else {
+                        lo = mid;
+                    }
+                }
+                DateTime::from_timestamp(hi, 0)
+                    .map(|t| t.with_timezone(&tz))
+                    .unwrap_or_else(|| dt.clone())
+            }
+        }
     }
 }
 
